@@ -1,7 +1,7 @@
 (* Properties/C11.v — Queries on the wire are exactly what was asked (encoder part). *)
 From RsdnsModel Require Import Base Names Writer.
 From RsdnsModel.Spec Require Import NameText.
-From RsdnsModel.Proofs Require Import WriterSafe.
+From RsdnsModel.Proofs Require Import WriterSafe WriterLayout.
 Open Scope N_scope.
 
 (* The query writer never writes outside its buffer: for every buffer (any capacity, 0 included),
@@ -34,3 +34,23 @@ Example C11_example :
       x03;x77;x77;x77;x01;x61;x00; x00;x01; x00;x01;
       x00; x00;x29; x04;xd0; x00;x00;x00;x00; x00;x00].
 Proof. vm_compute. reflexivity. Qed.
+
+(* EXACT LAYOUT, for every buffer, id, name, type, class, RD and OPT: when the writer succeeds the
+   buffer holds the 2-octet length prefix followed by exactly [query_message] — ID, flags with only
+   RD possibly set, QDCOUNT 1, ANCOUNT 0, NSCOUNT 0, ARCOUNT 0/1, the QNAME as length-prefixed
+   labels of the code-blind [text_labels] closed by the root octet, QTYPE, QCLASS and, with EDNS,
+   one OPT pseudo-record (root name, type 41, class = payload size, TTL = version, RDLENGTH 0) —
+   and every octet behind it is untouched. *)
+Theorem C11_exact_layout : forall buf id qname qt qc rd opt b n,
+  query_write buf id qname qt qc rd opt = Ok (b, n) ->
+  let m := query_message id qname qt qc rd opt in
+  n = 2 + lenN m /\ n <= lenN buf /\ b = put buf 0 (be_bytes 2 ((lenN m) mod 65536) ++ m).
+Proof. exact query_write_layout. Qed.
+
+(* what both client families hand to the socket (TCP: all of it; UDP: without the prefix) *)
+Theorem C11_clients_message : forall std id qname qt qc rd edns recv_len b,
+  prepare_message std id qname qt qc rd edns recv_len = Ok b ->
+  let opt := match edns with Some (ver, ups) => Some (ver, (N.min ups recv_len) mod 65536) | None => None end in
+  let m := query_message id qname qt qc rd opt in
+  b = be_bytes 2 (lenN m mod 65536) ++ m.
+Proof. exact prepare_message_layout. Qed.
